@@ -134,7 +134,97 @@ def neighbour_histories(mod, rng, quick):
                 if a != b:
                     four.append([a, b, a, b])
     out += four
-    return [[('call', dict(alpha[i], seed=sd())) for i in h] for h in out]
+    hists = [[('call', dict(alpha[i], seed=sd())) for i in h] for h in out]
+    for facet in facets(mod):
+        hists += facet_histories(facet, rng, quick)
+    return hists
+
+
+def cross(base, **dims):
+    """all combinations of the listed parameter values on top of `base`"""
+    import itertools
+    names = list(dims)
+    return [dict(base, **dict(zip(names, vals))) for vals in itertools.product(*[dims[k] for k in names])]
+
+
+def facets(mod):
+    """Further small alphabets, one per group of parameters that a cache key of
+    the module has to distinguish (or deliberately ignores): each is a list of
+    neighbouring calls, optionally with the operation to put between two calls
+    (dropping the memory caches makes the second call meet the files the first
+    one left on disk).  facet = (name, alphabet, separator op or None)."""
+    F = []
+    if mod == 'daun':
+        base = dict(n=6, degree=0, dr=1.0, direction='inverse', bd=None)
+        # every spelling of the regulariser, equal and different strengths
+        regs = [None, ('diff', 0.5), ('L2', 0.5), ('L2c', 0.5), ('diff', 2.0), ('L2', 2.0), ('L2c', 2.0), 'nonneg']
+        F.append(('reg', cross(base, reg=regs), None))
+        F.append(('reg-size', cross(base, reg=[('L2', 0.5), ('L2c', 0.5)], n=[6, 9], degree=[0, 1]), None))
+        disk = cross(dict(base, reg=None, bd=1), n=[6, 9], degree=[1, 3], direction=['inverse', 'forward'])
+        F.append(('disk', disk, ('cleanup', 'all')))
+        F.append(('disk-mem', cross(dict(base, reg=None, bd=1), n=[6, 9, 12], degree=[2, 3]), None))
+    if mod == 'basex':
+        base = dict(n=8, sig=0, reg=0, corr=True, dr=0, direction='inverse', bd=None)
+        F.append(('reg', cross(base, reg=[0, 1, 2], corr=[True, False], dr=[0, 1]), None))
+        F.append(('reg-dir', cross(base, reg=[0, 1], direction=['inverse', 'forward'], n=[8, 9]), None))
+        disk = cross(dict(base, bd=1), n=[6, 8, 12], sig=[0, 1])
+        F.append(('disk', disk, ('cleanup', 'all')))
+        F.append(('disk-mem', disk, None))
+    if mod == 'dasch':
+        disk = cross(dict(bd=1, dr=1.0), meth=[0, 1, 2], n=[6, 9])
+        F.append(('disk', disk, ('cleanup',)))
+        F.append(('size-dr', cross(dict(bd=None, meth=0), n=[5, 6, 9], dr=[1.0, 0.5]), None))
+    if mod == 'linbasex':
+        base = dict(n=11, orders=[0, 2], angles=[0, 202], step=1, clip=0, bd=None)
+        F.append(('step-clip', cross(base, step=[1, 2], clip=[0, 1], n=[9, 11]), None))
+        disk = cross(dict(base, bd=1), n=[9, 11], orders=[[0, 2], [0, 1, 2]], angles=[[0, 202], [0, 102]])
+        F.append(('disk', disk, ('cleanup',)))
+    if mod == 'rbasex':
+        base = dict(shape=0, origin=0, rmax=0, order=2, odd=False, wid=0, direction='inverse', reg=0, out=0, bd=None)
+        # which radii have data: all / a ring of zero weights / rmax beyond the corners
+        F.append(('valid', [dict(base, direction=d, **v) for d in ('inverse', 'forward')
+                            for v in (dict(), dict(wid=4), dict(rmax=4), dict(wid=4, rmax=4))], None))
+        F.append(('valid-reg', [dict(base, reg=r, **v) for r in (0, 2, 4)
+                                for v in (dict(), dict(wid=4), dict(rmax=4))], None))
+        # what the files on disk hold: parity, order, radius, inverse matrices
+        disk = cross(dict(base, bd=1), order=[1, 2, 4], odd=[False, True], rmax=[0, 1])
+        for d in ('inverse', 'forward'):
+            F.append(('disk-' + d, [dict(c, direction=d) for c in disk], ('cleanup', 'all')))
+        F.append(('disk-dir', cross(dict(base, bd=1), order=[2, 4], odd=[False, True],
+                                    direction=['inverse', 'forward']), ('cleanup', 'all')))
+        # which image is built from the distributions: out x origin, for the two parities, in
+        # a frame whose height is 2 rmax + 1 also for the off-centre origin (explicit rmax = 4)
+        for order, odd in ((1, True), (2, True), (2, False)):
+            F.append(('out-%d%s' % (order, 'o' if odd else ''),
+                      cross(dict(base, order=order, odd=odd, rmax=3), out=[0, 1, 2, 3, 4], origin=[0, 1]), None))
+        F.append(('out-dir', cross(dict(base, order=1, odd=True, rmax=3, origin=1), out=[0, 3, 4],
+                                   direction=['inverse', 'forward']), None))
+    return F
+
+
+def facet_histories(facet, rng, quick):
+    """All ordered pairs of the alphabet (with the separator between the two
+    calls when the facet has one), all triples when they are few, otherwise a
+    sample of them (quick) / all of them up to a bound (thorough)."""
+    import itertools
+    name, alpha, sep = facet
+    sd = lambda: int(rng.integers(1 << 30))      # noqa
+    n = len(alpha)
+    idx = [list(t) for t in itertools.product(range(n), repeat=2)]
+    triples = [list(t) for t in itertools.product(range(n), repeat=3)]
+    cap = 40 if quick else 600
+    if len(triples) > cap:
+        triples = [triples[i] for i in rng.choice(len(triples), size=cap, replace=False)]
+    idx += triples
+    hists = []
+    for h in idx:
+        ops = []
+        for j, i in enumerate(h):
+            if j and sep is not None:
+                ops.append(sep)
+            ops.append(('call', dict(alpha[i], seed=sd())))
+        hists.append(ops)
+    return hists
 
 
 # --------------------------------------------------------------------------
@@ -377,7 +467,12 @@ def run(ctx):
                    calls_differing_from_fresh=n_dis,
                    rule='every call of every generated history is compared with the same call in a fresh interpreter state '
                         '(all cache globals reset, empty basis directories; sampled in a brand-new process); a case is '
-                        'distinct by its call parameters (image seed ignored); histories: directed scenarios + random op '
+                        'distinct by its call parameters (image seed ignored); histories: directed scenarios + exhaustive short '
+                        'histories (all 3-call, all/sampled 4-call histories over a 4-symbol alphabet per module; all ordered pairs '
+                        'and all/sampled triples over further alphabets per group of parameters a cache key must distinguish: '
+                        'regulariser spellings and strengths, sizes/degrees/orders/parities on disk with the memory caches dropped '
+                        'between the calls, radii without data (ring of zero weights, rmax beyond the corners) x direction x '
+                        'regularisation, out x origin x parity in a frame of height 2 rmax + 1) + random op '
                         'lists of calls / cache_cleanup / basis_dir_cleanup / set_basis_dir / appearing and disappearing '
                         'files / in-place weight changes over the parameter lattice of each module (n <= 14)',
                    samples=samples, input_distribution=dist, exhaustive=False,
